@@ -323,7 +323,7 @@ func c04PatchAnswer(text string) string {
 func c04Parsers(c *Case, rng *Rng, r *Run) {
 	c.Desc = "output files alone: generated metrics / patch texts through MetricOperationsFromBytes+ValidateOperations / ParseOperations"
 	c.Nontrivial = true
-	for i := 0; i < r.N(40, 120); i++ {
+	for i := 0; i < r.N(150, 1500); i++ {
 		bad := rng.Chance(75)
 		mdocs := c04MetricDocs(rng, "p")
 		text, shape := c04Join(rng, mdocs), "valid"
